@@ -153,7 +153,7 @@ use crate::expressions::{BinaryExpr, Literal};
 use crate::utils::{ExprTreeNode, build_dag};
 
 use arrow::datatypes::{DataType, Schema};
-use datafusion_common::{Result, internal_err, not_impl_err};
+use datafusion_common::{Result, ScalarValue, internal_err, not_impl_err};
 use datafusion_expr::Operator;
 use datafusion_expr::interval_arithmetic::{Interval, apply_operator, satisfy_greater};
 
@@ -249,6 +249,10 @@ impl ExprIntervalGraphNode {
 /// - For division operation, specifically, we would first do
 ///     - `[xL, xU]` <- (`[yL, yU]` * `[pL, pU]`) ∩ `[xL, xU]`, and then
 ///     - `[yL, yU]` <- (`[xL, xU]` / `[pL, pU]`) ∩ `[yL, yU]`.
+///
+/// Since integer division truncates, `[pL, pU]` is first widened to the range
+/// of the exact ratios that truncate into it when propagating through an
+/// integer division.
 pub fn propagate_arithmetic(
     op: &Operator,
     parent: &Interval,
@@ -280,9 +284,11 @@ pub fn propagate_arithmetic(
         }
         _ => {
             // First, propagate to the left:
-            match apply_operator(&inverse_op, parent, right_child)?
-                .intersect(left_child)?
-            {
+            let left = match op {
+                Operator::Divide => widen_truncated_quotient(parent)?.mul(right_child)?,
+                _ => apply_operator(&inverse_op, parent, right_child)?,
+            };
+            match left.intersect(left_child)? {
                 // Left is feasible:
                 Some(value) => Ok(
                     // Propagate to the right using the new left.
@@ -685,11 +691,36 @@ fn propagate_right(
     match op {
         Operator::Minus => apply_operator(op, left, parent),
         Operator::Plus => apply_operator(inverse_op, parent, left),
-        Operator::Divide => apply_operator(op, left, parent),
+        Operator::Divide => left.div(widen_truncated_quotient(parent)?),
         Operator::Multiply => apply_operator(inverse_op, parent, left),
         _ => internal_err!("Interval arithmetic does not support the operator {}", op),
     }?
     .intersect(right)
+}
+
+/// Integer division truncates: `x / y = p` only implies that the exact ratio
+/// of `x` and `y` lies in `(p - 1, p + 1)` (towards zero, it is `p` itself).
+/// Given the interval of an integer `quotient`, this function returns the
+/// interval of the exact ratios that can produce it, which is the one to use
+/// when inverting a division. Other data types are returned as is.
+fn widen_truncated_quotient(quotient: &Interval) -> Result<Interval> {
+    let dt = quotient.data_type();
+    if !dt.is_integer() {
+        return Ok(quotient.clone());
+    }
+    let zero = ScalarValue::new_zero(&dt)?;
+    let unit = Interval::try_new(zero.clone(), ScalarValue::new_one(&dt)?)?;
+    let lower = if quotient.lower().is_null() || quotient.lower() > &zero {
+        quotient.lower().clone()
+    } else {
+        quotient.sub(&unit)?.lower().clone()
+    };
+    let upper = if quotient.upper().is_null() || quotient.upper() < &zero {
+        quotient.upper().clone()
+    } else {
+        quotient.add(&unit)?.upper().clone()
+    };
+    Interval::try_new(lower, upper)
 }
 
 /// During the propagation of [`Interval`] values on an [`ExprIntervalGraph`],
